@@ -106,6 +106,52 @@ add(
     "DESIGN.md section 4, C10",
 )
 
+add(
+    "C04", "exploration",
+    "property-based testing (Hypothesis): conservation law over all output files + reference routing model + "
+    "recomputation of every report figure; JSON vs text vs minimal report agreement",
+    "Generated filter/redirect/discard/demultiplex scenarios (single and paired, interleaved variants, --max-aer, "
+    "combinatorial demultiplexing with --discard-untrimmed): every read id occurs at most once over all files, every "
+    "file holds exactly what the reference model sends there, and the JSON figures (input, output, each category, "
+    "base pairs from the files themselves, quality-/poly-A-trimmed, with-adapter) equal per-read tallies; input = "
+    "output + categories; the text or minimal report agrees with the JSON.",
+    "Held on everything explored after two repository fixes (F2a, F2b). Floating-point criteria on a threshold are "
+    "excluded (counted).",
+    "DESIGN.md section 4, C04",
+)
+add(
+    "C05", "exploration",
+    "property-based testing (Hypothesis): record-by-record pair agreement over every output pair + pair-decision "
+    "reference model",
+    "Paired scenarios (two files / interleaved, adapters on one or both sides, every --pair-filter value, one-sided "
+    "length bounds, all filters, redirect pairs, both demultiplexing modes, --pair-adapters): each pair of output "
+    "files is read record by record (same count, matching ids, input order), each pair id occurs in one destination, "
+    "and that destination equals the documented pair decision computed from the reference-modified mates.",
+    "Held on everything explored. Non-triviality = mates disagree on a criterion, measured per case.",
+    "DESIGN.md section 4, C05",
+)
+add(
+    "C11", "exploration",
+    "property-based testing (Hypothesis) against a documented-criteria routing model with thresholds drawn at the "
+    "values occurring in the data",
+    "Filter thresholds are drawn at the lengths, N counts/fractions and expected errors that the fully modified reads "
+    "actually have; the model walks the documented filter order and predicts the exact content of the main output "
+    "and of every redirect file, which is compared record by record.",
+    "Held on everything explored. --max-ee/--max-aer within 1e-9 of the threshold are excluded unless exact in binary.",
+    "DESIGN.md section 4, C11",
+)
+add(
+    "C15", "exploration",
+    "property-based testing (Hypothesis): reference routing model for demultiplexing, file-set oracle, multiset "
+    "equality with the un-demultiplexed run, 1 vs 2 cores differential",
+    "Named adapter sets with {name} and {name1}/{name2} templates: every demultiplexed file must hold exactly the "
+    "reads whose last match names it (unknown / untrimmed-output / nowhere as configured), every adapter name "
+    "(combination) must have its file even if empty, the records over all files must equal the main output of the "
+    "same command without demultiplexing, and two cores must give identical files.",
+    "Held on everything explored after repository fixes F2a and F9.",
+    "DESIGN.md section 4, C15",
+)
+
 NOT_APPLICABLE = []  # filled below for every property without a check
 
 ALL_IDS = [f"C{i:02d}" for i in range(1, 21)]
